@@ -345,3 +345,104 @@ pub fn c10_cancel(cx: &mut Ctx) {
 fn h_us_of_finish(c: &ClientRec) -> u64 {
     c.steps.iter().map(|s| s.done_us).max().unwrap_or(c.connect_us).max(c.connect_us)
 }
+
+/// C11 — hostile bytes hurt only the sender.
+///
+/// Judged on the well-behaved clients of the run (canaries, the admin canary, the final
+/// probes): the pooler is still running; every canary logs in and every one of its steps
+/// completes without any ErrorResponse and with the transaction status its own program
+/// implies; what it sent and received equals, byte for byte, what the servers received and
+/// sent for it; nobody inherits session state from somebody else; no server is banned.
+/// What happens to the attackers themselves is not judged.
+pub fn c11_hostile(cx: &mut Ctx) {
+    let h = cx.h;
+    let kinds = cx.spec.params.get("c11_kinds").cloned().unwrap_or_default();
+    let attack_labels: Vec<String> = kinds.as_object().map(|m| m.values().filter_map(|v| v.as_str().map(|s| s.to_string())).collect()).unwrap_or_default();
+    for l in &attack_labels {
+        let stage = l.split('/').next().unwrap_or("");
+        cx.probe(&format!("c11_stage_{}", stage));
+        for k in l.split('/').nth(1).unwrap_or("").split('+') {
+            cx.probe(&format!("c11_payload_{}", k));
+        }
+    }
+    let which = attack_labels.join(", ");
+    // a. the pooler is alive
+    if let Some((seq, us)) = simcore::rt::pgcat_exit() {
+        let how = if simcore::rt::main_panic() { "main_task_panicked" } else { "main_returned" };
+        cx.v("C11", "pooler_terminated", &format!("C11/pooler_terminated/{}", how), seq, format!("PgCat's main task ended at {} ms ({}); attackers of this run: {}", us / 1000, how, which));
+    }
+    // b. canaries are served, without errors, with the status their own program implies
+    for c in h.clients.values() {
+        let judged = matches!(c.role.as_str(), "canary" | "probe" | "admin");
+        if !judged {
+            continue;
+        }
+        if c.auth_result != "ok" {
+            cx.v("C11", "canary_refused", &format!("C11/canary_login_failed/role={}", c.role), c.connect_seq, format!("well-behaved client {} ({}) could not log in: {}; attackers: {}", c.id, c.role, c.auth_result, which));
+            continue;
+        }
+        cx.probe("c11_canary_logged_in");
+        let mut in_txn = false;
+        let prog = cx.spec.clients.iter().find(|x| x.id == c.id);
+        for s in &c.steps {
+            if s.op != "send" {
+                continue;
+            }
+            // what the program says about the transaction state after this step
+            if let Some(crate::spec::Step::Send { msgs, .. }) = prog.and_then(|p| p.steps.get(s.idx)) {
+                for m in msgs {
+                    if let crate::spec::FrontMsg::Q { sql } = m {
+                        let up = sql.trim_start().to_ascii_uppercase();
+                        if up.starts_with("BEGIN") {
+                            in_txn = true;
+                        } else if up.starts_with("COMMIT") || up.starts_with("ROLLBACK") {
+                            in_txn = false;
+                        }
+                    }
+                }
+            }
+            let errs: Vec<String> = s.msgs.iter().filter(|m| m.ty == b'E').map(|m| { let f = proto::error_fields(&m.body); format!("{} {}", f.get(&'C').cloned().unwrap_or_default(), f.get(&'M').cloned().unwrap_or_default()) }).collect();
+            match &s.outcome {
+                StepOutcome::Ready(st) => {
+                    cx.probe("c11_canary_step_checked");
+                    if !errs.is_empty() {
+                        let code = errs[0].split(' ').next().unwrap_or("").to_string();
+                        cx.v("C11", "canary_error", &format!("C11/canary_got_error/{}", code), s.done_seq, format!("well-behaved client {} ({}) step {} received an error it did not cause: {:?}; attackers: {}", c.id, c.role, s.idx, errs, which));
+                    } else if c.role != "admin" {
+                        let want = if in_txn { b'T' } else { b'I' };
+                        if *st != want {
+                            cx.v("C11", "canary_status", "C11/canary_wrong_transaction_status", s.done_seq, format!("well-behaved client {} step {} ended with transaction status {} where its own program implies {}; attackers: {}", c.id, s.idx, *st as char, want as char, which));
+                        }
+                    }
+                }
+                StepOutcome::Closed(how) => {
+                    cx.v("C11", "canary_disconnected", &format!("C11/canary_disconnected/role={}", c.role), s.done_seq, format!("well-behaved client {} ({}) was disconnected ({}) in step {}: {:?}; attackers: {}", c.id, c.role, how, s.idx, errs, which));
+                }
+                _ => {}
+            }
+        }
+    }
+    // c. byte-exact relay and result attribution for the canaries
+    super::data::relay_check(cx, "C11", false);
+    super::data::result_attribution(cx, "C11");
+    // d. nobody inherits somebody else's session state
+    let before = cx.out.len();
+    super::data::handoff_check(cx, true);
+    for v in cx.out.iter_mut().skip(before) {
+        if v.property == "C02" {
+            v.property = "C11".into();
+            v.fingerprint = v.fingerprint.replacen("C02/", "C11/dirty_handoff/", 1);
+            v.msg = format!("{}; attackers: {}", v.msg, which);
+        }
+    }
+    // e. no server taken out of rotation
+    for n in simcore::observe::notes() {
+        if n.kind == "ban" {
+            cx.v("C11", "server_banned", "C11/server_banned", n.seq, format!("server {} was banned at {} ms although no server failed; attackers: {}", n.detail, n.us / 1000, which));
+        }
+    }
+    // reach: how many server connections were lost along the way (not judged: the pool replaces them)
+    let lost = h.backend_conns.iter().filter(|b| b.kind == "session" && b.closed_seq.is_some() && b.close_how != "terminate").count();
+    cx.probe_n("c11_server_conn_closed_abnormally", lost as u64);
+    cx.probe_n("c11_panics_in_client_tasks", h.panics.len() as u64);
+}
